@@ -134,6 +134,7 @@ func (c *checker) checkUncommittedConfigs(s *server, e *sim.Ev) {
 		return
 	}
 	c.cov("cfg-entry-stored")
+	c.ext.reevalMajority(c, e)
 	n := 0
 	var idx []uint64
 	for i := range s.disk.cfgs {
